@@ -57,7 +57,7 @@ def shortest_path(mesh : Mesh, start : int, targets : list, weights = "length", 
 
     # Initialize data
     if weights=="one":
-        edge_length = lambda _ : 1.
+        edge_length = lambda u,v : 1.
     elif weights== "length":
         edge_length = lambda u,v : geom.distance(mesh.vertices[u], mesh.vertices[v])
     else:
